@@ -19,7 +19,10 @@ for f in sorted(glob.glob(os.path.join(V, "seeded", "*", "meta.json"))):
     own = m["property"] in m.get("caught_by", [])
     need = (m.get("needs_to_manifest") or "").strip().splitlines()
     title = need[0].lstrip("# ").strip() if need else ""
-    rows.append((m["seed_id"], m["property"], "yes" if own else ("other: " + ",".join(m["caught_by"]) if m.get("caught_by") else "no"), first, title[:110]))
+    verdict = "yes" if own else ("other: " + ",".join(m["caught_by"]) if m.get("caught_by") else "no")
+    if not m.get("applies_to_repo_head", True):
+        verdict = "patch does not apply to HEAD (needs patch.rebased.diff)"
+    rows.append((m["seed_id"], m["property"], verdict, first, title[:110]))
 out = ["# Seeded changes and what the checks said", "",
        "Each row: an independently produced change that breaks the property while compiling and passing the 1898 existing tests",
        "(confirmed in a scratch worktree, see `<seed>/confirm.log`), applied to /repo, checked, reverted (`tools/adopt_seed.py`).", "",
